@@ -22,6 +22,39 @@ pub struct C19;
 /// with the names the converter generates (`<symbol>_<bits>`, `<variable>_<bits>`)
 pub const NAMES_C19: [&str; 12] = ["a", "b", "c", "d", "v_1", "A", "E", "x", "f_1", "a_0", "g_10", "h_"];
 
+/// Every identifier (not `true` / `false`) is extended to `len` characters by a suffix that keeps it
+/// bnet-compatible and keeps distinct names distinct.
+fn lengthen_identifiers(aeon: &str, len: usize) -> String {
+    let mut out = String::new();
+    let mut word = String::new();
+    let flush = |word: &mut String, out: &mut String| {
+        if !word.is_empty() {
+            if word != "true" && word != "false" && word.len() < len {
+                let mut w = format!("{word}_");
+                let mut i = 0;
+                while w.len() < len {
+                    w.push(b"long0name1with2many3chars4"[i % 26] as char);
+                    i += 1;
+                }
+                out.push_str(&w);
+            } else {
+                out.push_str(word);
+            }
+            word.clear();
+        }
+    };
+    for ch in aeon.chars() {
+        if ch.is_alphanumeric() || ch == '_' {
+            word.push(ch);
+        } else {
+            flush(&mut word, &mut out);
+            out.push(ch);
+        }
+    }
+    flush(&mut word, &mut out);
+    out
+}
+
 fn cfail(class: &str, aeon: &str, message: String) -> Failure {
     Failure {
         class: class.to_string(),
@@ -198,7 +231,7 @@ impl Property for C19 {
         "C19"
     }
     fn rule(&self) -> String {
-        "each case runs the convert-aeon-to-bnet binary built from /repo's working tree on a random aeon network (1-4 variables with bnet-compatible names, a share of names that can collide with generated ones; implicit functions with <= 3 regulators; explicit functions with uninterpreted symbols of arity 0-2, shared between variables, nested, applied to expressions; regulation constraints of any kind) and reloads the output with try_from_bnet. Oracle per variable with a regulator or function: set of truth tables over the original variables as the fresh inputs range over all values == set of truth tables as the unknown functions range over all instantiations (constraints dropped); variables with neither stay inputs; no other targets. Non-trivial: some variable's family has more than 2 members (an unknown function of arity >= 1).".into()
+        "each case runs the convert-aeon-to-bnet binary built from /repo's working tree on a random aeon network (1-4 variables with bnet-compatible names, a share of names that can collide with generated ones, a share of cases with all identifiers 20-90 characters long; implicit functions with <= 3 regulators; explicit functions with uninterpreted symbols of arity 0-2, shared between variables, nested, applied to expressions; regulation constraints of any kind) and reloads the output with try_from_bnet. Oracle per variable with a regulator or function: set of truth tables over the original variables as the fresh inputs range over all values == set of truth tables as the unknown functions range over all instantiations (constraints dropped); variables with neither stay inputs; no other targets. Non-trivial: some variable's family has more than 2 members (an unknown function of arity >= 1).".into()
     }
     fn assumptions(&self) -> Vec<String> {
         vec![
@@ -246,6 +279,11 @@ impl Property for C19 {
                 }
             }
             aeon = lines.join("\n");
+        }
+        // in a share of the cases: long identifiers (variables, function symbols, parameters)
+        let long = [0usize, 0, 0, 0, 0, 20, 31, 32, 33, 47, 90][gen::idx(raw.names.get(2).copied().unwrap_or(0), 11)];
+        if long > 0 {
+            aeon = lengthen_identifiers(&aeon, long);
         }
         check_aeon(&aeon)
     }
